@@ -46,13 +46,14 @@ LabelSet(ls) == { <<ls[i].n, ls[i].v>> : i \in DOMAIN ls }
 Flat(chs) == FoldLeft(LAMBDA acc, c : acc \o c, <<>>, chs)
 (* samples <<t, v>> of a series; of all series of a list that carry the label set lset *)
 SeriesSamples(s) == UNION { { <<s.chunks[c][k].t, s.chunks[c][k].v>> : k \in DOMAIN s.chunks[c] } : c \in DOMAIN s.chunks }
-SamplesWith(ss, lset) == UNION { SeriesSamples(ss[i]) : i \in { j \in DOMAIN ss : LabelSet(ss[j].labels) = lset } }
+SamplesWith(ss, lsets, lset) == UNION { SeriesSamples(ss[i]) : i \in { j \in DOMAIN ss : lsets[j] = lset } }
 
 (* The clauses of C48 violated by answering `out` to (series, reqs).  *)
 WViolations(series, reqs, out) ==
-    LET PerSeries(s) ==
+    LET outL == [a \in DOMAIN out |-> LabelSet(out[a].labels)]     \* label sets of the written series
+        PerSeries(s) ==
           LET lset == LabelSet(s.labels)
-              left == SamplesWith(out, lset)
+              left == SamplesWith(out, outL, lset)
               leftT == { x[1] : x \in left }
               may == { r \in DOMAIN reqs : WMatches(reqs[r], s.labels) }
               must == { r \in may : WCarriesAll(reqs[r], s.labels) }
@@ -71,11 +72,11 @@ WViolations(series, reqs, out) ==
     IN
     UNION { PerSeries(series[i]) : i \in DOMAIN series }
     \cup
-    (IF \A a \in DOMAIN out : \E i \in DOMAIN series : LabelSet(series[i].labels) = LabelSet(out[a].labels)
+    (IF \A a \in DOMAIN out : \E i \in DOMAIN series : LabelSet(series[i].labels) = outL[a]
        THEN {} ELSE {"only-block-data-written"})
     \cup
     (* each kept sample once, in time order, one output series per label set *)
-    (IF /\ \A a, b \in DOMAIN out : a # b => LabelSet(out[a].labels) # LabelSet(out[b].labels)
+    (IF /\ \A a, b \in DOMAIN out : a # b => outL[a] # outL[b]
         /\ \A a \in DOMAIN out : LET f == Flat(out[a].chunks) IN \A k \in 1..(Len(f) - 1) : f[k].t < f[k + 1].t
        THEN {} ELSE {"each-kept-sample-once-in-order"})
 
